@@ -34,6 +34,19 @@ func fieldVar(xType types.Type, idx int) *types.Var {
 
 func pathOf(v ssa.Value) string { return pathOfD(v, 0) }
 
+// isPromotingField: an embedded struct / pointer / interface field, through
+// which fields and methods are promoted; source code normally does not spell it.
+func isPromotingField(f *types.Var) bool {
+	if !f.Embedded() {
+		return false
+	}
+	switch f.Type().Underlying().(type) {
+	case *types.Struct, *types.Pointer, *types.Interface:
+		return true
+	}
+	return false
+}
+
 func pathOfD(v ssa.Value, d int) string {
 	if d > 12 || v == nil {
 		return "…"
@@ -47,10 +60,16 @@ func pathOfD(v ssa.Value, d int) string {
 		return x.Name()
 	case *ssa.FieldAddr:
 		if f := fieldVar(x.X.Type(), x.Field); f != nil {
+			if isPromotingField(f) {
+				return pathOfD(x.X, d+1) // promoted through an embedded field: as written in source
+			}
 			return pathOfD(x.X, d+1) + "." + f.Name()
 		}
 	case *ssa.Field:
 		if f := fieldVar(x.X.Type(), x.Field); f != nil {
+			if isPromotingField(f) {
+				return pathOfD(x.X, d+1)
+			}
 			return pathOfD(x.X, d+1) + "." + f.Name()
 		}
 	case *ssa.UnOp:
@@ -534,3 +553,50 @@ func StorePath(suffix string) M {
 
 // Pred builds a matcher from a predicate.
 func Pred(desc string, f func(in ssa.Instruction) bool) M { return M{Desc: desc, F: f} }
+
+// AnyReturn matches every Return instruction except the synthetic one in the
+// function's recover block.
+var AnyReturn = M{Desc: "return", F: func(in ssa.Instruction) bool {
+	ret, ok := in.(*ssa.Return)
+	if !ok {
+		return false
+	}
+	return ret.Block() != ret.Parent().Recover
+}}
+
+// Reaching lifts a matcher to call sites: it matches an instruction that m
+// matches, or a call whose (loaded) static callee contains — up to depth levels
+// down — an instruction that m matches. Used when the step sits in an
+// immediately-invoked closure or a small helper.
+func Reaching(m M, depth int) M {
+	var contains func(fn *ssa.Function, d int, seen map[*ssa.Function]bool) bool
+	contains = func(fn *ssa.Function, d int, seen map[*ssa.Function]bool) bool {
+		if fn == nil || len(fn.Blocks) == 0 || seen[fn] || d < 0 {
+			return false
+		}
+		seen[fn] = true
+		for _, b := range fn.Blocks {
+			for _, in := range b.Instrs {
+				if m.F(in) {
+					return true
+				}
+				if c, ok := in.(*ssa.Call); ok {
+					if contains(c.Common().StaticCallee(), d-1, seen) {
+						return true
+					}
+				}
+			}
+		}
+		return false
+	}
+	return M{Desc: m.Desc + " (directly or in a callee)", F: func(in ssa.Instruction) bool {
+		if m.F(in) {
+			return true
+		}
+		c, ok := in.(*ssa.Call)
+		if !ok {
+			return false
+		}
+		return contains(c.Common().StaticCallee(), depth-1, map[*ssa.Function]bool{})
+	}}
+}
